@@ -224,7 +224,18 @@ def patched(rec):
                     raise KeyboardInterrupt()
                 rec.inflight += 1
                 rec.rec("dispatch", k)
-            return self._p.apply_async(func, args=args)
+
+            def guarded(*a, **kw):
+                # an exception escaping a pool function is silently dropped by the real Pool and the task never
+                # completes (the run then waits forever): record it so that the hang is detected, not suffered
+                try:
+                    return func(*a, **kw)
+                except BaseException as e:
+                    with rec.cv:
+                        rec.inflight -= 1
+                        rec.rec("died", k, "%s: %s" % (type(e).__name__, e))
+                    raise
+            return self._p.apply_async(guarded, args=args)
 
         def close(self):
             self._p.close()
@@ -264,33 +275,42 @@ def patched(rec):
                         if rec.inflight == 0 and rec.finished == rec.received:
                             rec.rec("hang")
                             raise HangDetected()
+                        # nothing at all has happened for a long time (no record, no gate arrival) although tasks are
+                        # in flight and no gate holds them: the workers are stuck
+                        cur = len(rec.trace) + rec.arrivals
+                        if cur != getattr(self, "_last_cur", None):
+                            self._last_cur, self._last_t = cur, time.time()
+                        elif not rec.waiters and time.time() - self._last_t > 3 * rec.watchdog:
+                            rec.rec("hang", "stalled")
+                            raise HangDetected()
             with rec.cv:
                 rec.main_in_get = False
                 rec.received += 1
                 rec.rec("receive", rec.tid(task))
             return task
 
-    def handle_task(task, context, q):
+    # the wrappers pass every further argument through: a refactoring that adds a parameter must not blind the recorder
+    def handle_task(task, *args, **kwargs):
         k = rec.tid(task)
         rec._local.in_handle = k
         rec._start(k)
         try:
-            return orig_handle(task, context, q)
+            return orig_handle(task, *args, **kwargs)
         finally:
             rec._local.in_handle = None
 
-    def skip_task(task, context, q, reason=""):
+    def skip_task(task, context, q, reason="", *args, **kwargs):
         k = rec.tid(task)
         if getattr(rec._local, "in_handle", None) == k:
             rec._mode(k, "skip", reason)
         else:
             rec._start(k)
             rec._mode(k, "skip", reason)
-        return orig_skip(task, context, q, reason)
+        return orig_skip(task, context, q, reason, *args, **kwargs)
 
-    def run_task(task, context, q):
+    def run_task(task, *args, **kwargs):
         rec._mode(rec.tid(task), "run")
-        return orig_run(task, context, q)
+        return orig_run(task, *args, **kwargs)
 
     T.Pool, T.Queue, T.handle_task, T.skip_task, T.run_task = RecPool, RecQueue, handle_task, skip_task, run_task
     rec.start_controller()
